@@ -6,7 +6,8 @@ from .sinks import SINK_TRAIT, SEND_CALLS, is_whole_param, adapters, buffered_si
 
 SS = 'cadence::sinks::core::SocketStats'
 SOCK_SEND = ('std::net::udp::UdpSocket::send_to', 'std::os::unix::net::datagram::UnixDatagram::send_to',
-             'std::net::udp::UdpSocket::send', 'std::os::unix::net::datagram::UnixDatagram::send')
+             'std::net::udp::UdpSocket::send', 'std::os::unix::net::datagram::UnixDatagram::send',
+             'std::os::unix::net::datagram::UnixDatagram::send_to_addr', 'std::os::unix::net::datagram::UnixDatagram::send_vectored')
 UNBUFFERED_ADTS = [('cadence::sinks::udp::UdpMetricSink', 'core::net::socket_addr::SocketAddr', 'std::net::udp::UdpSocket'),
                    ('cadence::sinks::unix::UnixMetricSink', 'std::path::PathBuf', 'std::os::unix::net::datagram::UnixDatagram')]
 
@@ -70,7 +71,7 @@ def rule_unbuffered(ctx, rep, rid='R1'):
         for sb_ in sends:
             ct = norm(T.call_term(sb_))
             cts.append(ct)
-            okk = ct[1].endswith('::send_to')
+            okk = ct[1].endswith('::send_to') or ct[1].endswith('::send_to_addr')
             okp = is_whole_param(ct[2][1], 2) and not any(y[0] == 'call' and isinstance(y[1], str) and ('trim' in y[1] or 'index' in y[1].lower() or 'split' in y[1] or 'get' in y[1].rsplit('::', 1)[-1]) for y in walk(ct[2][1]))
             if not okp:
                 first_bad.setdefault('payload', (sb_, 'payload is %s' % fmt(ct[2][1])[:100]))
@@ -236,8 +237,31 @@ def C_must_pass(b, start, targets):
     return all(C.must_pass(b, s, set(C.exits(b, False)), targets) for s in succ)
 
 
+def stat_roles(cad):
+    """public SinkStats field -> the private SocketStats counter it is read from (from `From<&SocketStats> for SinkStats`);
+    None unless the four public figures come from four distinct counters"""
+    fr = [b for b in cad.all_bodies if b.impl_trait == 'core::convert::From' and (b.impl_self or '') == 'cadence::sinks::core::SinkStats' and b.name == 'from']
+    if len(fr) != 1:
+        return None
+    rts = ret_terms(Terms(inl(cad, fr[0])), [0])
+    if len(rts) != 1 or list(rts)[0][0] != 'adt':
+        return None
+    out = {}
+    for n_, v in list(rts)[0][3]:
+        if not term_callee_is(v, 'core::sync::atomic::Atomic::load'):
+            return None
+        out[n_] = leaf_field_name(v[2][0])
+    if len(out) != 4 or len(set(out.values())) != 4 or None in out.values():
+        return None
+    return out
+
+
 def rule_classification(ctx, rep, rid='R2'):
     cad = ctx.cad
+    roles = stat_roles(cad)
+    if roles is None or not all(k in roles for k in ('bytes_sent', 'packets_sent', 'bytes_dropped', 'packets_dropped')):
+        rep.unknown(rid, 'update/counter-roles', '', 'cannot tell which SocketStats counter feeds which public figure')
+        return
     upd = stats_update(cad)
     if len(upd) != 1:
         return
@@ -295,8 +319,8 @@ def rule_classification(ctx, rep, rid='R2'):
     def amt_one(a):
         return a[0] == 'const' and a[2] == '1'
 
-    check_side(ok_s, {'bytes_sent': amt_n, 'packets_sent': amt_one}, 'sent')
-    check_side(er_s, {'bytes_dropped': amt_len, 'packets_dropped': amt_one}, 'dropped')
+    check_side(ok_s, {roles['bytes_sent']: amt_n, roles['packets_sent']: amt_one}, 'sent')
+    check_side(er_s, {roles['bytes_dropped']: amt_len, roles['packets_dropped']: amt_one}, 'dropped')
     r_ok, r_er = ret_terms(T, ok_s), ret_terms(T, er_s)
     g = (r_ok == {('adt', 'core::result::Result', 'Ok', (('0', n_ok),))} or r_ok == {('param', 2)}) and \
         (r_er == {('adt', 'core::result::Result', 'Err', (('0', field_of(('payload', ('param', 2), 'Err'), '0', 0)),))} or r_er == {('param', 2)})
@@ -322,8 +346,8 @@ def rule_shared_counters(ctx, rep, rid='R3'):
         rts = ret_terms(Terms(inl(cad, b)), [0])
         ok = False
         if len(rts) == 1 and list(rts)[0][0] == 'adt':
-            ok = all(term_callee_is(v, 'core::sync::atomic::Atomic::load') and leaf_field_name(v[2][0]) == n for n, v in list(rts)[0][3]) and len(list(rts)[0][3]) == 4
-        rep.ob(rid, 'snapshot-maps-field-to-same-field', ok, b.where(), 'SinkStats.X = SocketStats.X.load() for the four counters')
+            ok = stat_roles(cad) is not None
+        rep.ob(rid, 'snapshot-maps-field-to-same-field', ok, b.where(), 'the four public figures are loads of four distinct SocketStats counters (which one feeds which is then used by the classification rule)')
     # SocketStats Clone is derived over Arc fields (clones share)
     cl = [i for i in cad.impls_of('core::clone::Clone') if i.get('self_adt') == SS]
     fields = adt_fields(cad, SS) or []
